@@ -1,8 +1,9 @@
 SPECIFICATION Spec
 CONSTANTS
-  Mode = "variants"
-  AtomSet <- AllAtoms
-  InnerAtoms <- NoAtoms
+  Mode = "model"
+  AtomSet <- MidAtoms
+  PairAtoms <- NoAtoms
+  InnerAtoms <- ZeroOne
   PairOuter = FALSE
   Dump = TRUE
 INVARIANT KeyImpliesPyEq
